@@ -72,6 +72,10 @@ fn log_phase(ph: usize, st: St, act: u8) -> usize {
     j
 }
 
+pub fn log_phase_pub(ph: usize, st: St, act: u8) -> usize {
+    log_phase(ph, st, act)
+}
+
 /// summary of `StoreImpl::do_reduce`: any need_dispatch, any new state, no effects
 pub fn sum_reduce<State, Action>(
     _this: &StoreImpl<State, Action>,
